@@ -63,6 +63,7 @@ type Contract struct {
 	HasAssigns bool
 	Panics   string
 	Pure     bool
+	Returns  ast.Expr // pure extern: the result is this expression of the parameters
 	Trusted  string
 	Inline   bool
 	File     string
@@ -113,7 +114,7 @@ func newContractSet() *ContractSet {
 	return &ContractSet{Aliases: map[string]string{}, Funcs: map[string]*Contract{}, Ghosts: map[string]*GhostField{}, TypeInvs: map[string][]*TypeInv{}, Consts: map[string]ast.Expr{}, Defines: map[string]*Define{}, Preds: map[string]*Pred{}}
 }
 
-var keywordRe = regexp.MustCompile(`^(alias|assume|boxednonnil|pred|func|extern|interface|ghost|smt|typeinv|const|define|requires|ensures|loop|assigns|panics|pure|trusted|at|inline)\b`)
+var keywordRe = regexp.MustCompile(`^(alias|assume|boxednonnil|pred|func|extern|interface|ghost|smt|typeinv|const|define|requires|ensures|returns|loop|assigns|panics|pure|trusted|at|inline)\b`)
 
 type rawLine struct {
 	indent int
@@ -347,6 +348,13 @@ func (cs *ContractSet) loadFile(file string, pkgPrefix string) error {
 				cur.Panics = rest
 			case "pure":
 				cur.Pure = true
+			case "returns":
+				e, err := cs.parseExpr(rest)
+				if err != nil {
+					return fail("%v", err)
+				}
+				cur.Pure = true
+				cur.Returns = e
 			case "trusted":
 				cur.Trusted = rest
 				if rest == "" {
